@@ -187,6 +187,53 @@ func monC12(c *drv.Ctx) {
 		}
 		cs.Count(true, "word", cs.Idx)
 	})
+	// (3b) a first word without the marker in front of something that would be a good header by itself (a frame
+	// length prefix of a framed transport, say): still a bad version - the first word decides, nothing is
+	// searched for further on
+	c.Stage("unmarked-word-before-a-header", c.Pick(3000, 60000), false, func(cs *drv.Case) {
+		r := cs.R
+		name := string(gen.Bytes(r, r.Intn(12)))
+		hdr := ref.EncMessageBegin(nil, name, int32(1+r.Intn(4)), gen.I32(r))
+		var w uint32
+		switch r.Intn(4) {
+		case 0:
+			w = uint32(len(hdr)) // a frame length
+		case 1:
+			w = uint32(len(hdr) + r.Intn(100))
+		case 2:
+			w = uint32(r.Intn(1 << 16))
+		default:
+			w = r.Uint32()
+		}
+		if w&0xffff0000 == 0x80010000 {
+			w &^= 0x80000000
+		}
+		in := append(ref.U32(nil, w), hdr...)
+		in = append(in, gen.Bytes(r, r.Intn(8))...)
+		cs.Desc = M{"first_word": fmt.Sprintf("%#08x", w), "input_hex": hexOf(in)}
+		check := func(which string, err error) {
+			if err == nil {
+				cs.Fail("bad-version-accepted", M{"reader": which, "followed_by": "a well-formed header"}, M{"first_word": fmt.Sprintf("%#08x", w)})
+				return
+			}
+			if id, ok := typeID(err); !ok || id != int32(4) {
+				cs.Fail("bad-version-error-type", M{"reader": which}, M{"first_word": fmt.Sprintf("%#08x", w), "err": errString(err), "type_id": id, "is_protocol_exception": ok})
+			}
+		}
+		_, _, _, _, err := thrift.Binary.ReadMessageBegin(place(in, 0))
+		check("Binary.ReadMessageBegin", err)
+		rd := bufiox.NewBytesReader(in)
+		br := thrift.NewBufferReader(rd)
+		_, _, _, err = br.ReadMessageBegin()
+		br.Recycle()
+		rd.Release(nil)
+		check("BufferReader.ReadMessageBegin", err)
+		if _, _, err := thrift.UnmarshalFastMsg(in, nil); err == nil {
+			cs.Fail("bad-version-accepted", M{"reader": "UnmarshalFastMsg", "followed_by": "a well-formed header"}, M{"first_word": fmt.Sprintf("%#08x", w)})
+		}
+		cs.Count(true, "framed", w, name)
+		cs.C.Obs("unmarked first words in front of a well-formed header", 1)
+	})
 	// (4) every truncation point of envelopes / messages must be rejected
 	c.Stage("truncations", c.Pick(6000, 100000), false, func(cs *drv.Case) {
 		r := cs.R
